@@ -424,8 +424,10 @@ def check_movie(ctx, case):
     rng = ctx.rng
     n_t = int(rng.integers(1, 6))
     n_obs = len(case['obs_lab'])
-    meas3 = np.stack([gen.values(rng, (n_obs, case['n_ch']), case['vkind']).astype(float)
-                      for _ in range(n_t)], axis=2)
+    # the temporal dataset keeps the dtype of the values (integer counts stay integers); the reference works on floats
+    meas3 = np.stack([gen.values(rng, (n_obs, case['n_ch']), case['vkind']) for _ in range(n_t)], axis=2)
+    if not np.issubdtype(meas3.dtype, np.integer) or rng.integers(2):
+        meas3 = meas3.astype(float)
     tkind = gen.pick(rng, ['arange', 'float', 'shuffled'])
     if tkind == 'arange':
         times = np.arange(n_t)
@@ -467,7 +469,7 @@ def check_movie(ctx, case):
         frames = []
         for b in bins:
             sel = [i for i, t in enumerate(times) if t in set(b.tolist())]
-            frames.append((float(np.mean(times[sel])), meas3[:, :, sel].mean(axis=2)))
+            frames.append((float(np.mean(times[sel])), meas3[:, :, sel].astype(float).mean(axis=2)))
     if rd.n_rdm != len(frames):
         ctx.fail('movie_vs_reference', sig, f'n_rdm {rd.n_rdm} != frames {len(frames)}', data())
         return
